@@ -53,6 +53,19 @@ var family = map[string]string{
 	kReadCommitted: "read-committed", kAddFT: "ft", kSubFT: "ft", kSetFT: "ft",
 }
 
+// familyOf: the FT mutators write a slot of the account's own storage (same journal entry
+// kind as SetData); with amount 0 AddFT only touches the object.
+func familyOf(o Op) string {
+	switch o.K {
+	case kAddFT, kSubFT, kSetFT:
+		if o.K == kAddFT && o.V == 0 {
+			return "touch"
+		}
+		return "storage"
+	}
+	return family[o.K]
+}
+
 const ftName = "VERIF-TOK2" // a token name without ERC20 binding: FT mutators then use the account's own storage
 const slotFT = 3            // pseudo slot index of the FT key in the model / observation
 
